@@ -218,6 +218,83 @@ def tcp_lifecycle(ops: List[int], n: int) -> bool:
                and not conn.disconnecting and not conn._connected)
 
 
+def server_stop_handshake(k: int, kind: int) -> bool:
+    """
+    pre: 0 <= k <= 3 and 0 <= kind <= 2
+    post: _
+    """
+    # disable() on a passive endpoint that is listening: it raises the stop flag, closes the listening socket and waits until the
+    # accept thread has cleared the flag. The accept thread is inside (or in front of) its k-th select() call at that moment; that
+    # call then times out (0), reports the closed socket readable (1) or raises like select on a closed socket does (2); every
+    # later select()/accept() on the closed socket raises. The accept thread must end normally with the flag cleared - otherwise
+    # disable() never returns.
+    import errno
+    import secsgem.common.tcp_server_connection as tsc
+    import secsgem.hsms
+
+    class Listen:
+        def __init__(self, *a):
+            self.closed = False
+
+        def setsockopt(self, *a):
+            pass
+
+        def bind(self, addr):
+            pass
+
+        def listen(self, n):
+            pass
+
+        def fileno(self):
+            return -1 if self.closed else 5
+
+        def accept(self):
+            if self.closed:
+                raise OSError(errno.EBADF, "Bad file descriptor")
+            raise AssertionError("harness: no peer ever connects in this scenario")
+
+        def shutdown(self, how):
+            pass
+
+        def close(self):
+            self.closed = True
+
+    conn = tsc.TcpServerConnection(secsgem.hsms.HsmsSettings(connect_mode=secsgem.hsms.HsmsConnectMode.PASSIVE))
+    calls = [0]
+
+    def fake_select(r, w, x, timeout=None):
+        n = calls[0]
+        calls[0] += 1
+        if n > 40:
+            raise _Stall()
+        sock = r[0]
+        if n == k:
+            # first half of disable(), executed by the disabling thread while this thread sits in select()
+            conn._enabled = False
+            conn._stop_server_thread = True
+            sock.close()
+            if kind == 0:
+                return ([], [], [])
+            if kind == 1:
+                return ([sock], [], [])
+            raise ValueError("file descriptor cannot be a negative integer (-1)")
+        if sock.closed:
+            raise ValueError("file descriptor cannot be a negative integer (-1)")
+        return ([], [], [])
+
+    tsc.select = types.SimpleNamespace(select=fake_select)
+    tsc.socket = types.SimpleNamespace(socket=Listen, AF_INET=2, SOCK_STREAM=1, SOL_SOCKET=1, SO_REUSEADDR=2, SO_KEEPALIVE=9,
+                                       SHUT_RDWR=2)
+    conn._enabled = True
+    try:
+        conn._TcpServerConnection__server_thread()
+    except _Stall:
+        return False
+    except Exception:
+        return False          # the accept thread dies with an exception (stop flag still raised: disable() spins for ever)
+    return fin(conn._stop_server_thread is False)
+
+
 OBLIGATIONS = [
     dict(name="cut_then_close", fn="cut_then_close", timeout=900,
          parts={"quick": ["j == %d and len(body) <= 2" % j for j in range(16)],
@@ -235,6 +312,13 @@ OBLIGATIONS = [
                 "bytes delivered, close reported once, flags at rest; socket/select/sleep are contract stubs, each connection's "
                 "receiver runs to completion (sequential)",
          outside="preemption between disconnect() and the receiver thread (busy-wait spin protocol on real threads); accept/connect threads"),
+    dict(name="server_stop_handshake", fn="server_stop_handshake", timeout=300,
+         functions=["TcpServerConnection.__server_thread (accept loop) against the first half of TcpServerConnection.disable"],
+         bounds="disable() arriving while the accept thread is in its 1st..4th select() call; that call times out, reports the closed "
+                "socket readable or raises; later select/accept on the closed socket raise: the accept thread ends with the stop "
+                "flag cleared (disable() returns)",
+         outside="a peer connecting at the same moment; the client connection's connect thread; real socket/kernel behaviour beyond "
+                 "the stub contract"),
     dict(name="real_threads", fn="real_threads", kind="native", timeout=600,
          functions=["the same callbacks on real ProtocolDispatcher threads"],
          bounds="16 cut offsets x 2 session states, 3 s limit per disconnect (enumeration)"),
